@@ -368,6 +368,32 @@ func runC17(c *Ctx) {
 					rec.Violate("cross-hash", name+"/other-alg-VerifyDigest/"+ec.p.name, "signature verifies through the other algorithm's VerifyDigest", in)
 				}
 			}
+			// RSASSA-PSS binds the hash (it is the MGF's hash and fixes the salt length): a verifier of the same
+			// key for EVERY other PS algorithm refuses the signature whichever digest it is offered - the
+			// message's digest under the signature's own hash included. (Not asked of ECDSA, where a digest is
+			// just a number and the verifier cannot tell which hash produced it.)
+			if ec.p.alg == cose.AlgorithmPS256 || ec.p.alg == cose.AlgorithmPS384 || ec.p.alg == cose.AlgorithmPS512 {
+				for _, ob := range []cose.Algorithm{cose.AlgorithmPS256, cose.AlgorithmPS384, cose.AlgorithmPS512} {
+					if ob == ec.p.alg {
+						continue
+					}
+					vb, err := cose.NewVerifier(ob, ec.p.pub)
+					if err != nil {
+						continue
+					}
+					rec.Event("rsa-other-alg-verifier-probes")
+					if e := vb.Verify(msg, sig); e == nil {
+						rec.Violate("cross-hash", fmt.Sprintf("%s/verifier-of-%v-Verify/%s", name, ob, ec.p.name), "signature verifies under a verifier of the same key with another algorithm", in)
+					}
+					if dvb, ok := vb.(cose.DigestVerifier); ok {
+						for dn, dg := range map[string][]byte{"own-hash": digest, "verifier-hash": refcrypto.Digest(refcrypto.HashOf(int64(ob)), msg)} {
+							if e := dvb.VerifyDigest(dg, sig); e == nil {
+								rec.Violate("cross-hash", fmt.Sprintf("%s/verifier-of-%v-VerifyDigest(%s)/%s", name, ob, dn, ec.p.name), "signature made under "+fmt.Sprint(ec.p.alg)+" verifies through another algorithm's VerifyDigest", in)
+							}
+						}
+					}
+				}
+			}
 		}
 	})
 	rec.Require("NewSigner", 300)
